@@ -14,6 +14,7 @@
 -/
 import AmiscModel.Interp
 import AmiscModel.Index
+import AmiscModel.Generated.Logic
 
 namespace Amisc
 
@@ -71,10 +72,10 @@ structure Cand where
 deriving Repr
 
 /-- `delta_work = max(1, cost)` -/
-def work (c : Cand) : Q := if c.cost < 1 then 1 else c.cost
+def work (c : Cand) : Q := Gen.work c.cost     -- generated from `delta_work = max(1., comp.get_cost(alpha, beta))`
 
 /-- error indicator `δ / max(1, cost)`; NaN stays NaN -/
-def indicator (c : Cand) : Option Q := c.delta.map (· / work c)
+def indicator (c : Cand) : Option Q := c.delta.map (fun d => Gen.indicatorOf d (work c))   -- generated formula
 
 /-- the scan of `System.refine`: `star` = chosen candidate so far, `emax` = running maximum (`none` = −∞).
     A defined indicator replaces the choice iff it is strictly greater than the running maximum; an undefined (NaN)
